@@ -74,3 +74,20 @@ Require RV.Gen.Sites RV.Model.SiteMap RV.Proofs.SitesFacts.
 Theorem C16_literals_reviewed : RV.Model.SiteMap.literals_ok RV.Model.SiteMap.files_C16.
 Proof. apply RV.Proofs.SitesFacts.literals_okb_sound. vm_compute. reflexivity. Qed.
 Print Assumptions C16_literals_reviewed.
+
+(* ---- the validator AS TRANSLATED FROM THE SOURCE on this run ----
+   Gen/Code.v gen_is_valid_config is produced by /verif/rs2coq from src/config/mod.rs (control flow
+   translated structurally: the one mutable flag, the sequence of ifs, else-if chains, the unwrap;
+   configuration getters and the directory probes through the table in rs2coq/targets.txt). It is
+   the modelled validator, so the theorems above hold of the code as it is written today. *)
+Require Import RV.Model.Bytes RV.Model.Message RV.Gen.Code RV.Proofs.CodeFacts.
+
+Theorem C16_translated_validator_is_model :
+  forall c, to_vres (gen_is_valid_config c) = is_valid_config c.
+Proof. exact gen_is_valid_config_model. Qed.
+Print Assumptions C16_translated_validator_is_model.
+
+Theorem C16_translated_validator_iff :
+  forall c, gen_is_valid_config c = Ok true <-> config_ok c = true.
+Proof. exact gen_is_valid_config_iff. Qed.
+Print Assumptions C16_translated_validator_iff.
